@@ -428,14 +428,14 @@ theorem step_memoOK (w : World V) (hw : MemoOK w) (op : Op V) : MemoOK (step w o
       | some i =>
         simp only
         have hil : i < w.heap.length := hw.1 r (List.mem_of_getElem? hr) i hi
-        have hw1 : ∀ w1 j, (if sharesWithBaseline w r = true then ownCopy w s i else (w, i)) = (w1, j) → RefsOK w1 := by
+        have hw1 : ∀ w1 j, (if isReform r = true then ownCopy w s i else (w, i)) = (w1, j) → RefsOK w1 := by
           intro w1 j h
-          by_cases hsh : sharesWithBaseline w r = true
+          by_cases hsh : isReform r = true
           · rw [if_pos hsh] at h
             have := (ownCopy_refsOK w hw.1 s i hil).1
             rw [h] at this; exact this
           · rw [if_neg hsh] at h; cases h; exact hw.1
-        cases hc : (if sharesWithBaseline w r = true then ownCopy w s i else (w, i)) with
+        cases hc : (if isReform r = true then ownCopy w s i else (w, i)) with
         | mk w1 j =>
           have hr1 := hw1 w1 j hc
           simp only
@@ -526,15 +526,15 @@ theorem step_length_le (w : World V) (op : Op V) : w.systems.length ≤ (step w 
       | none => exact Nat.le_refl _
       | some i =>
         simp only
-        have hlen : ∀ w1 j, (if sharesWithBaseline w r = true then ownCopy w s i else (w, i)) = (w1, j) →
+        have hlen : ∀ w1 j, (if isReform r = true then ownCopy w s i else (w, i)) = (w1, j) →
             w1.systems.length = w.systems.length := by
           intro w1 j h
-          by_cases hsh : sharesWithBaseline w r = true
+          by_cases hsh : isReform r = true
           · rw [if_pos hsh] at h
             have := ownCopy_systems_length w s i
             rw [h] at this; exact this
           · rw [if_neg hsh] at h; cases h; rfl
-        cases hc : (if sharesWithBaseline w r = true then ownCopy w s i else (w, i)) with
+        cases hc : (if isReform r = true then ownCopy w s i else (w, i)) with
         | mk w1 j =>
           have hl := hlen w1 j hc
           simp only
@@ -622,10 +622,10 @@ theorem step_treeOf_other (w : World V) (hw : RefsOK w) (op : Op V) (s' : Nat) (
         rw [hr, List.getElem?_eq_getElem hs'] at hcond
         simp only [Bool.or_eq_true, bne_iff_ne, ne_eq] at hcond
         -- after the (possible) copy: the object merged into is not the one `s'` refers to
-        have key : ∀ w1 j, (if sharesWithBaseline w r = true then ownCopy w s i else (w, i)) = (w1, j) →
+        have key : ∀ w1 j, (if isReform r = true then ownCopy w s i else (w, i)) = (w1, j) →
             w1.treeOf s' = w.treeOf s' ∧ ∀ r', w1.systems[s']? = some r' → r'.tree ≠ some j := by
           intro w1 j h
-          by_cases hsh : sharesWithBaseline w r = true
+          by_cases hsh : isReform r = true
           · rw [if_pos hsh] at h
             have h1 := ownCopy_treeOf w hw s i s' hne
             rw [h] at h1
@@ -643,7 +643,7 @@ theorem step_treeOf_other (w : World V) (hw : RefsOK w) (op : Op V) (s' : Nat) (
             rcases hcond with hc | hc
             · exact hsh hc
             · exact hc (by rw [hi, hk])
-        cases hc : (if sharesWithBaseline w r = true then ownCopy w s i else (w, i)) with
+        cases hc : (if isReform r = true then ownCopy w s i else (w, i)) with
         | mk w1 j =>
           obtain ⟨k1, k2⟩ := key w1 j hc
           simp only
